@@ -7,6 +7,9 @@ CHECKS = {
  "C01": ("exploration", "reference-model monitor (maximal-live-candidate versioned map) over resolver calls on enumerated DAG shapes x placements and over recorded HTTP histories",
          "Every DAG shape with <=5 nodes (all ordered merge-parent lists) x every value/tombstone/nothing placement x every queried node is executed against the real resolver (exhaustive slice), larger DAGs and real put/delete/commit/branch/merge HTTP histories are sampled; the oracle is order-free so entry order and parent order are covered by shuffling/permutation.",
          "Trusts the 40-line reference model in harness/internal/dvc/dag.go; DAGs >10 nodes and >4 merge parents are not explored; Badger itself is trusted.", "3/C01"),
+ "C07": ("exploration", "invariant monitor on /api/repos/info after every request + model agreement (accepted) + frame condition on graph, branch-head and per-uuid resolution (rejected)",
+         "Random hostile request sequences over the whole repo-level vocabulary (incl. RPC-mirrored delete/rename) with duplicate / malformed / foreign arguments; after every request the server's own JSON is checked for single root, acyclicity, mirrored links, unique UUIDs and version ids, committed parents, linear named branches, and rejected requests are checked to leave graph, heads and uuid resolution untouched.",
+         "Branch-head and uuid resolution are observed through a 'whoami' key of a keyvalue instance; only newly introduced conditions are attributed to a request; repeated merge parents (a mirrored multi-edge) are counted as observation, not violation.", "3/C07"),
 }
 NOT_BUILT = "check not built yet in this round (machinery in progress); see DESIGN.md section 3"
 ALL = ["C%02d" % i for i in range(1, 21)]
